@@ -172,11 +172,34 @@ def _import_once():
         return {"status": "exc", "exc": "post:" + type(e).__name__, "msg": str(e)[:200]}
 
 
+def _other_filesystem_tmpdir(scratch):
+    """The system temp dir is deliberately on ANOTHER file system than the package copy (as it is
+    for a package installed under /usr or a venv with /tmp on tmpfs): a temp file created there
+    cannot be renamed into place."""
+    import tempfile
+
+    cand = "/tmp" if scratch.startswith("/dev/shm") else "/dev/shm"
+    try:
+        if os.path.isdir(cand) and os.access(cand, os.W_OK) and os.stat(cand).st_dev != os.stat(scratch).st_dev:
+            os.environ["TMPDIR"] = cand
+            tempfile.tempdir = None
+            return cand
+    except OSError:
+        pass
+    return None
+
+
 def run_state(p):
     """Leaf: one damaged state, two consecutive real imports."""
     repo = env.repo_dir()
     sys.dont_write_bytecode = False
     scratch = _ensure_scratch(p["scratch"], repo)
+    _other_filesystem_tmpdir(scratch)
+    if p.get("strict_warnings"):
+        # interpreter configuration knob: warnings are errors (python -W error)
+        import warnings
+
+        warnings.simplefilter("error")
     cache = os.path.join(scratch, CACHE_REL)
     with open(os.path.join(repo, CACHE_REL), "rb") as f:
         shipped = f.read()
@@ -236,7 +259,7 @@ def run_state(p):
     return {
         "state": p["state"], "build_env": p["build_env"], "before": before, "first": first, "after1": after1,
         "complete1": complete1, "second": second, "after2": after2, "t_first": t1 - t0, "t_second": t2 - t1,
-        "loaded_from": loaded_from, "scratch": scratch, "built_reference": ref, "nbytes": None if data is None else len(data),
+        "strict_warnings": bool(p.get("strict_warnings")), "loaded_from": loaded_from, "scratch": scratch, "built_reference": ref, "nbytes": None if data is None else len(data),
     }
 
 
@@ -359,6 +382,9 @@ def real_import(scratch, build_env):
         e["BUILD_TZ_CACHE"] = "1"
     e["PYTHONHASHSEED"] = "0"
     e.pop("PYTHONDONTWRITEBYTECODE", None)
+    other = _other_filesystem_tmpdir(scratch)
+    if other:
+        e["TMPDIR"] = other
     code = (
         "import sys; sys.path.insert(0, %r); sys.path.insert(1, %r)\n"
         "import dateparser, dateparser.timezone_parser as tp\n"
@@ -513,7 +539,7 @@ def replay(args, rep, base):
         return 0
     with make_farm() as farm:
         ref = farm.call("checks.c19_crash:run_state", {"scratch": base, "state": {"kind": "shipped"}, "build_env": False}, 120)[1]
-        st, val = farm.call("checks.c19_crash:run_state", {"scratch": base, "state": rp["state"], "build_env": rp["build_env"]}, 120)
+        st, val = farm.call("checks.c19_crash:run_state", {"scratch": base, "state": rp["state"], "build_env": rp["build_env"], "strict_warnings": rp.get("strict_warnings", False)}, 120)
     if st != "ok":
         print("HARNESS replay leaf %s: %s" % (st, val))
         return 2
@@ -536,8 +562,10 @@ def explore(args, rep, base, shipped, tier, seed):
         if s["kind"] != "prefix":
             for be in (False, True):
                 payloads.append({"scratch": base, "state": s, "build_env": be})
+            if s["kind"] in ("empty", "garbage", "missing", "shipped"):
+                payloads.append({"scratch": base, "state": s, "build_env": False, "strict_warnings": True})
         else:
-            payloads.append({"scratch": base, "state": s, "build_env": rng.random() < 0.3})
+            payloads.append({"scratch": base, "state": s, "build_env": rng.random() < 0.3, "strict_warnings": rng.random() < 0.25})
     counts = {"import_raised": 0, "repaired": 0, "loaded_normally": 0, "rewrote_on_second_import": 0}
     fault_kinds = {}
     samples = []
@@ -592,10 +620,12 @@ def explore(args, rep, base, shipped, tier, seed):
                 samples.append({"state": val["state"], "build_env": val["build_env"], "first": val["first"]["status"], "file_before": val["before"] and val["before"]["size"], "file_after_first_import": val["after1"] and val["after1"]["size"], "file_complete_after": val["complete1"]["ok"], "second": val["second"]["status"], "broken_invariants": bad})
             if bad:
                 sig = signature(val, bad)
+                if val.get("strict_warnings"):
+                    sig["warnings_as_errors"] = True
                 key = json.dumps(sig, sort_keys=True)
                 first_bad.setdefault(key, 0)
                 first_bad[key] += 1
-                rep.violation(sig, {"layer": "a", "run": "%s-%s" % (kind, val["state"].get("k", val["state"].get("n", ""))), "state": val["state"], "build_env": val["build_env"], "seed": seed, "observed": {"first": val["first"], "complete1": val["complete1"], "second": val["second"]}, "broken": bad},
+                rep.violation(sig, {"layer": "a", "run": "%s-%s" % (kind, val["state"].get("k", val["state"].get("n", ""))), "state": val["state"], "build_env": val["build_env"], "strict_warnings": val.get("strict_warnings", False), "seed": seed, "observed": {"first": val["first"], "complete1": val["complete1"], "second": val["second"]}, "broken": bad},
                               "state %r BUILD_TZ_CACHE=%s: %s" % (val["state"], val["build_env"], bad))
         # layer (c): real interpreters
         crng = seeds.rng_for(seed, PROP, "real")
@@ -682,6 +712,6 @@ def explore(args, rep, base, shipped, tier, seed):
     assumptions = [
         "a crash / full disk / racing reader leaves a byte prefix of the single in-place write (or of a temp file that is never renamed)",
         "bit flips inside the file are out of scope (statement lists missing / empty / cut off)",
-        "the scratch package copy behaves like an installed package (same sources, cache path derived from the package location)",
+        "the scratch package copy behaves like an installed package (same sources, cache path derived from the package location); the system temp dir is on another file system than the package, and a quarter of the states are imported with warnings turned into errors",
     ]
     return rep.finish(coverage, assumptions)
